@@ -40,12 +40,16 @@ def gen_spec(rng, fmt):
     leap = (year % 4 == 0 and (year % 100 != 0 or year % 400 == 0))
     jday = rng.choice([1, 31, 59, 60, 154, 365, 366 if leap else 365, rng.randrange(1, 366)])
     hour = rng.choice([0, 1, 11, 12, 21, 22, 23, rng.randrange(24)])
-    if year == 2069 and jday >= 365:
-        hour = rng.choice([0, 5, 12])     # the two-digit-year window ends with 2069
+    if year == 2069 and jday >= 360:
+        jday = 300                        # the two-digit-year window ends with 2069
     spec = {'fmt': fmt, 'nx': rng.randrange(1, 6), 'ny': rng.randrange(1, 6),
             'nz': rng.randrange(1, 4), 'nt': rng.randrange(1, 5),
             'sdate': year * 1000 + jday, 'stime': float(hour),
             'special': rng.random() < 0.5,
+            # output interval in whole hours (daily files repeat the hour, only the date moves)
+            'dt': rng.choice([1, 1, 1, 3, 6, 24]),
+            # variables need not have been created in VAR-LIST order
+            'creation': rng.choice(['listed', 'listed', 'reversed', 'rotated']),
             # a computed source often carries float64 arrays (values representable in float32)
             'srcdtype': rng.choice(['f', 'f', 'd']),
             # memory layout of the source arrays (a transposed model buffer is F-ordered)
@@ -213,7 +217,12 @@ def build_source(spec, truth):
         for t, (dd, tt) in enumerate(truth['etflag']):
             ef[t, :, 0] = dd
             ef[t, :, 1] = tt
-    for k in truth['order']:
+    created = list(truth['order'])
+    if spec.get('creation') == 'reversed':
+        created = created[::-1]
+    elif spec.get('creation') == 'rotated' and len(created) > 1:
+        created = created[1:] + created[:1]
+    for k in created:
         a = truth['vars'][k]
         if fmt == 'lateral_boundary':
             dims = ('TSTEP', 'ROW', 'LAY') if k.split('_')[0] in ('WEST', 'EAST') \
@@ -238,7 +247,7 @@ def build_source(spec, truth):
     f.NCOLS = spec['nx']
     f.SDATE = np.int32(truth['tflag'][0][0])
     f.STIME = np.int32(truth['tflag'][0][1])
-    f.TSTEP = np.int32(10000)
+    f.TSTEP = np.int32(int(spec.get('dt', 1)) * 10000)
     h = truth['hdr']
     if fmt in ('uamiv', 'lateral_boundary'):
         f.NAME = h['name'].ljust(10)
